@@ -831,11 +831,7 @@ func (e *EvaluateHandler) ServeHTTP(w http.ResponseWriter, r *http.Request) {
 	if r.Method == "GET" {
 		q := r.URL.Query()
 		root := b6.FeatureIDFromString(q.Get("r"))
-		if result, err = e.Evaluator.EvaluateString(q.Get("e"), root); err == nil {
-			if a, ok := result.(*api.AppliedChange); ok {
-				result = a.Modified
-			}
-		}
+		result, err = e.Evaluator.EvaluateString(q.Get("e"), root)
 	} else if r.Method == "POST" {
 		var body []byte
 		if body, err = io.ReadAll(r.Body); err == nil {
@@ -850,6 +846,9 @@ func (e *EvaluateHandler) ServeHTTP(w http.ResponseWriter, r *http.Request) {
 	}
 	var literal b6.Literal
 	if err == nil {
+		if a, ok := result.(*api.AppliedChange); ok {
+			result = a.Modified
+		}
 		literal, err = b6.FromLiteral(result)
 	}
 	var node *pb.NodeProto
